@@ -2,16 +2,36 @@ use crate::{coercion, ChainPoint, PParams, DEFAULT_EXTRA_FEES};
 use tx3_tir::model::v1beta0 as tir;
 use tx3_tir::reduce::Error;
 
-pub fn eval_size_fees(tx: &[u8], pparams: &PParams, extra_fees: Option<u64>) -> u64 {
-    tx.len() as u64 * pparams.min_fee_coefficient
-        + pparams.min_fee_constant
-        + extra_fees.unwrap_or(DEFAULT_EXTRA_FEES)
+pub fn eval_size_fees(
+    tx: &[u8],
+    pparams: &PParams,
+    extra_fees: Option<u64>,
+) -> Result<u64, tx3_tir::compile::Error> {
+    (tx.len() as u64)
+        .checked_mul(pparams.min_fee_coefficient)
+        .and_then(|x| x.checked_add(pparams.min_fee_constant))
+        .and_then(|x| x.checked_add(extra_fees.unwrap_or(DEFAULT_EXTRA_FEES)))
+        .ok_or_else(|| {
+            tx3_tir::compile::Error::CoerceError(
+                "size fees".to_string(),
+                "64-bit quantity".to_string(),
+            )
+        })
 }
 
-pub fn slot_to_time(slot: i128, cursor: &ChainPoint) -> i128 {
+pub fn slot_to_time(slot: i128, cursor: &ChainPoint) -> Result<i128, Error> {
     let current_time = cursor.timestamp as i128;
-    let time_diff = slot - cursor.slot as i128;
-    current_time + (time_diff * 1000)
+
+    slot.checked_sub(cursor.slot as i128)
+        .and_then(|time_diff| time_diff.checked_mul(1000))
+        .and_then(|millis| current_time.checked_add(millis))
+        .ok_or_else(|| {
+            tx3_tir::compile::Error::CoerceError(
+                format!("{}", slot),
+                "slot with a representable timestamp".to_string(),
+            )
+            .into()
+        })
 }
 
 pub fn time_to_slot(time: i128, cursor: &ChainPoint) -> i128 {
